@@ -112,6 +112,11 @@ void queues_matrix() {
     (void)q2.try_push_strong(nontrivial{});
     (void)q2.try_pop(n);
     (void)q2.try_pop_strong(n);
+    (void)q2.try_push_weak(nontrivial{});
+    (void)q2.try_pop_weak(n);
+    (void)q2.pop();
+    (void)q2.pop_strong();
+    (void)q2.pop_weak();
     xenium::vyukov_bounded_queue<std::unique_ptr<int>> q3(2);
     std::unique_ptr<int> u;
     (void)q3.try_push(std::make_unique<int>(1));
